@@ -17,6 +17,7 @@ UNIT = dict(
         "ChaosConfig::clone@Clone": dict(),
         "ChaosLayer::new": dict(file="chlayer"),
         "ChaosConfigBuilder::new": dict(rules=[("sub", "R6-name", r"\"[^\"]*\"\.to_string\(\)", "vx_wrap()", 1)]),
+        "ChaosConfigBuilder::default@Default": dict(),
         "ChaosConfigBuilder::error_rate#0": setter(CLAMP),
         "ChaosConfigBuilder::error_rate#1": dict(rules=[CLAMP]),
         "ChaosConfigBuilder::name": setter(INTO),
